@@ -920,6 +920,20 @@ Proof.
   - unfold ep_hash, digest. intro X. apply I in X. rewrite X, String.eqb_refl in E. discriminate.
 Qed.
 
+Lemma eqb_app_prefix p x y : String.eqb (p ++ x) (p ++ y) = String.eqb x y.
+Proof. induction p as [|c p IH]; simpl; [reflexivity|]. now rewrite Ascii.eqb_refl. Qed.
+
+(** two look-ups at one endpoint whose remaining writes differ byte-wise do not collide *)
+Lemma p_F4_false_same_ep fx H a b e ra rb :
+  opt_fields fx H a = FX e :: ra -> opt_fields fx H b = FX e :: rb ->
+  String.eqb (cat ra) (cat rb) = false ->
+  ep_eqb (eff_ep (st_inst a)) (eff_ep (st_inst b)) = true ->
+  p_F4 fx H a b = false.
+Proof.
+  intros Ra Rb E P. unfold p_F4. rewrite Ra, Rb, P. unfold collide at 1.
+  rewrite !cat_cons, eqb_app_prefix, E. simpl. now rewrite andb_false_r.
+Qed.
+
 Lemma exists_pair_intro_false {A} (f : A -> A -> bool) : forall l,
   (forall a b, In a l -> In b l -> f a b = false) -> exists_pair f l = false.
 Proof.
@@ -974,8 +988,10 @@ Proof.
     destruct fx as [f1 f2 f3 f10].
     repeat (destruct Ia as [<-|Ia]; [repeat (destruct Ib as [<-|Ib]; [
       first [ apply p_F4_false_cross; [exact I|exact L|destruct f1; reflexivity|reflexivity|eexists; reflexivity|eexists; reflexivity]
+            | eapply p_F4_false_same_ep; [reflexivity|reflexivity|destruct f1; lazy; reflexivity|reflexivity]
             | apply p_F4_false_by_shift; destruct f1; cbv -[String.length Nat.eqb Nat.leb negb orb andb]; rewrite !L; reflexivity ]
       |]); destruct Ib|]).
+    destruct Ia.
   - do 2 eexists. splits; try reflexivity. eexists. reflexivity.
   - do 2 eexists. splits; reflexivity.
 Qed.
